@@ -204,3 +204,79 @@ func init() {
 		Doc: "fields of a *py.Exception are stored only by the function that allocated the exception (or at reviewed sites): exception values may be package-level singletons shared by all contexts",
 		Run: runC08R10})
 }
+
+// C08.R12: fields of a *py.Type reached through a parameter. Built-in type objects are created once per process and
+// shared by every context (and user classes list them as bases), so a function that stores into a field of a type it
+// received — rather than one it allocated — may be writing process-wide state at run time. Every (function, parameter,
+// field) triple is a reviewed row: initialisation of the type being made ready, or a documented embedder hook.
+var reviewedTypeFieldWrites = map[string]string{
+	"(*py.Type).Ready|t.Base":            "Ready initialises the type it is called on (PyType_Ready), once, before the type is used",
+	"(*py.Type).Ready|t.Bases":           "as above",
+	"(*py.Type).Ready|t.Dict":            "as above",
+	"(*py.Type).Ready|t.Flags":           "as above (sets READYING/READY)",
+	"(*py.Type).inherit_special|t.Flags": "part of Ready: the type being made ready inherits flags from its base (the base is only read)",
+	"(*py.Type).mro_internal|t.Mro":      "part of Ready: stores the computed MRO of the type being made ready",
+}
+
+func runTypeFieldWrites(c *Ctx, r *Rep) {
+	a := newAliasAn(c)
+	type row struct {
+		key string
+		pos token.Pos
+	}
+	seen := map[string]token.Pos{}
+	for _, fn := range a.fns {
+		if fn.Pkg == nil || !ssaInModule(c, fn) {
+			continue
+		}
+		for _, b := range fn.Blocks {
+			for _, in := range b.Instrs {
+				st, ok := in.(*ssa.Store)
+				if !ok {
+					continue
+				}
+				fa, ok := st.Addr.(*ssa.FieldAddr)
+				if !ok || !isPtrToNamed(fa.X.Type(), "/py", "Type") {
+					continue
+				}
+				pi := paramIdentity(fa.X)
+				if pi < 0 {
+					continue // allocated here, loaded from a global (C08.R1), or a field of something else
+				}
+				stt := fa.X.Type().Underlying().(*types.Pointer).Elem().Underlying().(*types.Struct)
+				key := fmt.Sprintf("%s|%s.%s", ssaFuncID(fn), paramName(fn, pi), stt.Field(fa.Field).Name())
+				if _, ok := seen[key]; !ok {
+					seen[key] = st.Pos()
+				}
+			}
+		}
+	}
+	var keys []string
+	for k := range seen {
+		keys = append(keys, k)
+	}
+	sort.Strings(keys)
+	for _, k := range keys {
+		if why, ok := reviewedTypeFieldWrites[k]; ok {
+			r.ok("typewrite|"+k, seen[k], "reviewed: %s", why)
+		} else {
+			r.bad("typewrite|"+k, seen[k], "%s stores into a field of a *py.Type it received as a parameter: when that type is a built-in (or any base class) the object is shared by every context, so the write is process-wide state changed at run time (a class statement in one context becomes visible in, and races with, all others)", k)
+		}
+	}
+	if len(keys) == 0 {
+		r.undecided("typewrite|sites", token.NoPos, "no store into a field of a *py.Type parameter found (expected the Ready/inherit initialisation code)")
+	}
+}
+
+func init() {
+	register(&Rule{ID: "C08.R12", Prop: "C08", Floor: 5,
+		Doc: "who-may-write census for py.Type: every store into a field of a *py.Type that the storing function received as a parameter or receiver (go/ssa) is a reviewed row — initialisation of the type being made ready; a new one (e.g. recording subclasses in the base) writes shared built-in types at run time",
+		Run: runTypeFieldWrites})
+	debugHooks["typewrites"] = func(c *Ctx) {
+		r := &Rep{rule: &Rule{ID: "x"}, c: c}
+		runTypeFieldWrites(c, r)
+		for _, o := range r.Obs {
+			fmt.Println(o.Key, "|", o.Pos)
+		}
+	}
+}
